@@ -21,7 +21,7 @@
 """SECoP proxy modules"""
 
 from frappy.client import SecopClient, decode_msg, encode_msg_frame
-from frappy.datatypes import StringType
+from frappy.datatypes import StringType, StructOf, TupleOf
 from frappy.errors import BadValueError, CommunicationFailedError, ConfigError
 from frappy.lib import get_class
 from frappy.modules import Drivable, Module, Readable, Writable
@@ -220,10 +220,21 @@ def proxy_class(remote_class, name=None):
         elif isinstance(aobj, Command):
             cobj = aobj.copy()
 
-            def cfunc(self, arg=None, cname=aname):
-                return self._secnode.execCommand(self.module, cname, arg)[0]
+            # Command.do calls the function with the elements of a tuple argument as positional
+            # arguments and with the members of a struct argument as keyworded arguments
+            if isinstance(cobj.argument, TupleOf):
+                def cfunc(self, *args, cname=aname):
+                    return self._secnode.execCommand(self.module, cname, args)[0]
+            elif isinstance(cobj.argument, StructOf):
+                def cfunc(self, cname=aname, **kwds):
+                    return self._secnode.execCommand(self.module, cname, kwds)[0]
+            else:
+                def cfunc(self, arg=None, cname=aname):
+                    return self._secnode.execCommand(self.module, cname, arg)[0]
 
-            attrs[aname] = cobj(cfunc)
+            # do not use cobj(cfunc): the signature check for struct arguments does not apply here
+            cobj.func = cfunc
+            attrs[aname] = cobj
 
         else:
             raise ConfigError(f'do not now about {aobj!r} in {remote_class}.accessibles')
